@@ -413,21 +413,30 @@ CLAIMED["C01"] = dict(
 
 CLAIMED["C04"] = dict(
     engine="tok+xmltok+total", design_ref="6.4",
-    technique="Lean 4 proof of a no-panic invariant for the HTML tokenizer model (all panic sites explicit) + feed-drains and "
-              "EOF-last lemmas; runtime totality (catch_unwind, watchdog with bisection, 10^4..10^6 depth/length families) for "
-              "the tree builders, xml5ever and real stack/time",
-    text="PARTIAL. Proved: every assert!/unwrap/expect/panic!/slice index/from_u32().unwrap() of html5ever's tokenizer and "
-         "character-reference tokenizer is unreachable from any freshly created tokenizer, for every input, chunking, start state "
-         "and sink policy (invariant Safe preserved by every step; uses the kernel-checked fact that all 2231 table values are "
-         "Unicode scalar values); a step that asks for more input has consumed everything available; the eof_step loop ends "
-         "by delivering EOF. Not proved (a model cannot exhibit real stack exhaustion, allocator aborts or wall-clock time, and the "
-         "tree-builder/XML models have no totality theorem yet): exercised instead — every tokenizer cover case and stress string "
-         "(HTML and XML, whole and chunked), and whole-parser runs on pathological documents/fragments/XML (every element class "
-         "nested 3*10^3 deep in quick, 10^5 deep and 10^6 long in thorough) must complete without panic/abort/hang, drain the "
-         "queue after every feed and deliver exactly one EOF last; the model's fuel must never run out.",
-    note="Trusted: Lean kernel; tokenizer model + tok/xmltok correspondence (a Rust panic surfaces as PANIC/ABORT); the watchdog in "
-         "tools/vlib.py; contract-abiding sinks (RcDom / recording sink). Termination of the tokenizer loop is not proved (fuel "
-         "4*(unread+stashed)+16 per feed was never exhausted).")
+    technique="Lean 4 proof for the HTML tokenizer model: no-panic invariant (all panic sites explicit), termination of the "
+              "run loop by a strictly decreasing measure below the fuel bound, feed drains, end() total with EOF last; the "
+              "no-panic invariant, feed-drains, eof-loop and EOF-last theorems ported to the XML tokenizer model; runtime "
+              "totality (catch_unwind, per-case watchdog with bisection, 10^4..10^6 depth/length families) for the tree "
+              "builders and real stack/time",
+    text="PARTIAL. Proved for html5ever's tokenizer + character-reference tokenizer (model, every input, chunking, start state, "
+         "sink policy, option set): (1) every assert!/unwrap/expect/panic!/slice index/from_u32().unwrap() is unreachable from any "
+         "freshly created tokenizer (invariant Safe preserved by every step; kernel-checked fact that all 2231 table values are "
+         "Unicode scalar values); (2) NO HANG: a measure (16 per unread or stashed character + the characters that can still "
+         "travel through name_buf and come back + ranks for pending reconsume, look-ahead and character-reference sub-states) "
+         "strictly decreases on every step that answers Continue and is below the fuel feed()/end() give the loop, so the loop "
+         "terminates after at most 17*(unread+stashed)+16 steps from every reachable machine, after any earlier feeds and pauses "
+         "(kernel-checked fact: every entity-name character is alphanumeric or ';'); (3) a step that asks for more input has "
+         "emptied the queue (also at EOF); (4) end() completes for EVERY sink from every machine a feed can stop in - it never "
+         "delivers a tag, so neither assert of end() can fail - and its last token is EOF; the eof_step loop needs at most 3 of its "
+         "rounds. Proved for xml5ever's tokenizer model: (1), (3), eof loop total, EOF last (fuel bound: in progress). Not proved "
+         "(a model cannot exhibit real stack exhaustion, allocator aborts or wall-clock time; the tree-builder models have no "
+         "totality theorem): exercised instead - every tokenizer cover case and stress string (HTML and XML, whole and chunked), "
+         "whole-parser runs on pathological documents/fragments/XML (every element class nested 3*10^3 deep in quick, 10^5 deep "
+         "and 10^6 long in thorough), every element name x every fragment context, must complete without panic/abort/hang, drain "
+         "the queue after every feed and deliver exactly one EOF last; the model's fuel must never run out.",
+    note="Trusted: Lean kernel; tokenizer models + tok/xmltok correspondence (a Rust panic surfaces as PANIC/ABORT, a hang as HANG "
+         "through the harness watchdog); tools/vlib.py bisection; contract-abiding sinks (RcDom / recording sink). The sink is "
+         "modelled as a pure policy over the token history.")
 
 PENDING_REASON = "not claimed yet: the Lean model / engine for this property is still under construction (see DESIGN.md section 8); no check is registered rather than registering one that is not sound"
 
